@@ -319,10 +319,7 @@ pub fn run_scenario(sc: &Scenario) -> Outcome {
         }
     }
     if quiescent && pend > 0 {
-        sim::wake_all();
-        let _ = sim::run(200_000);
-        let after = pending_ops(0);
-        notes.push(format!("triage: {} operations pending at quiescence; after waking every task once: {} ({})", pend, after, if after < pend { "lost wakeup suspected" } else { "accounting stall" }));
+        // diagnostics of the state the world went quiescent in (before the liberal re-run changes it)
         sim::with(|w| {
             for d in 0..2 {
                 notes.push(format!("pipe dir {}: {}", d, w.pipes[0].dirs[d].debug_state()));
@@ -352,6 +349,10 @@ pub fn run_scenario(sc: &Scenario) -> Outcome {
                 }
             }
         }
+        sim::wake_all();
+        let _ = sim::run(200_000);
+        let after = pending_ops(0);
+        notes.push(format!("triage: {} operations pending at quiescence; after waking every task once: {} ({})", pend, after, if after < pend { "lost wakeup suspected" } else { "accounting stall" }));
         stats.inc(if after < pend { "triage.lost_wakeup" } else { "triage.stall" });
     }
 
@@ -511,6 +512,22 @@ fn check_idle_close(view: &View, sc: &Scenario, quiescent: bool, out: &mut Vec<V
         }
         if a.side == Side::Client && a.op == Op::DropConn {
             client_dropped = true;
+        }
+    }
+    // "When the last request handle and the last stream of a client connection are gone, the connection ...
+    // completes": every client application task has finished (each drops its handles when it ends, and a stream
+    // all of whose handles are gone is closed or cancelled), nothing ended the connection, and yet the
+    // connection future is still pending in the quiescent world.
+    let conn_called = mon::apis(view.evs()).any(|(_, a)| a.side == Side::Client && a.op == Op::ConnDone && a.phase == Phase::Call);
+    let conn_returned = mon::apis(view.evs()).any(|(_, a)| a.side == Side::Client && a.op == Op::ConnDone && a.phase == Phase::Ret);
+    if conn_called && !conn_returned && !client_dropped {
+        let open_tasks: Vec<&str> = view.w.tasks.iter().filter(|t| !t.done && t.name.starts_with("client-") && t.name != "client-conn" && t.name != "client-main").map(|t| t.name.as_str()).collect();
+        let handshake_ok = mon::apis(view.evs()).any(|(_, a)| a.side == Side::Client && a.op == Op::Handshake && a.phase == Phase::Ret && matches!(a.res, Res::Ok));
+        // (cooperative scenarios only: a peer application that never releases capacity can keep request data the
+        // client has accepted unsent for ever, and such a stream is not gone)
+        if open_tasks.is_empty() && handshake_ok && sc.coop {
+            stats.inc("idle_close_due_checked");
+            out.push(Violation::new("C19", "idle-client-connection-never-closes", "every client task has finished and dropped its handles (last SendRequest, every stream handle), the world is quiescent, yet the client connection future is still pending: no GOAWAY(NO_ERROR), no shutdown".to_string()));
         }
     }
     if client_dropped || !client_ok {
